@@ -18,7 +18,11 @@ RESOURCE = 'resource'
 LITERAL_EVAL = {'builtin:ValueError': ORDINARY, 'builtin:TypeError': ORDINARY,
                 'builtin:SyntaxError': ORDINARY,
                 'builtin:MemoryError': RESOURCE,
-                'builtin:RecursionError': RESOURCE}
+                'builtin:RecursionError': RESOURCE,
+                # not in the documented list, observed on CPython 3.12:
+                # literal_eval('1' + '0' * 400 + '+1j') -> "int too large to
+                # convert to float" (a huge int literal added to a complex)
+                'builtin:OverflowError': ORDINARY}
 
 
 def region_functions(prog):
@@ -107,6 +111,22 @@ def dominated_by_membership(f, pm, node, key_text, mapping_text):
     return False
 
 
+def _length_guarded(f, sub):
+    """Is `X[k]` preceded, in the function, by a statement that leaves
+    when X is empty (`if len(X) == 0: return`, `if not X: return`)?"""
+    name = sub.value.id
+    for st in walk_no_nested(f.node):
+        if isinstance(st, ast.If) and st.lineno < sub.lineno and st.body \
+                and isinstance(st.body[-1], (ast.Return, ast.Raise,
+                                             ast.Continue)):
+            t = U(st.test).replace(' ', '')
+            if t in ('len(%s)==0' % name, 'not%s' % name,
+                     'len(%s)<1' % name, '0==len(%s)' % name,
+                     '%s==[]' % name, 'notlen(%s)' % name):
+                return True
+    return False
+
+
 def sites_of(prog, f, miss_raises):
     """[(node, description, {exc: class})] raising operation sites."""
     out = []
@@ -131,6 +151,12 @@ def sites_of(prog, f, miss_raises):
                 continue
             if isinstance(n.slice, ast.Constant) and isinstance(
                     n.slice.value, int):
+                if isinstance(n.value, ast.Name) and n.value.id in prm \
+                        and n.value.id != 'self' and not \
+                        _length_guarded(f, n):
+                    out.append((n, 'element %s of a possibly empty sequence'
+                                % U(n)[:40], {'builtin:IndexError':
+                                              ORDINARY}))
                 continue
             base = n.value
             bt = U(base)
@@ -248,3 +274,12 @@ def check(ctx):
         fd.rule = fd.rule.replace('C07.', 'C14.')
     for o in ctx.obligations[nob:]:
         o['rule'] = o['rule'].replace('C07.', 'C14.')
+    # ... including the documented InvalidContextObject for credentials that
+    # are neither a context nor a mutable mapping (= C08.CREDS)
+    from . import c08
+    before, nob = len(ctx.findings), len(ctx.obligations)
+    c08.check_creds(ctx)
+    for fd in ctx.findings[before:]:
+        fd.rule = 'C14.SURFACE(' + fd.rule + ')'
+    for o in ctx.obligations[nob:]:
+        o['rule'] = 'C14.SURFACE(' + o['rule'] + ')'
